@@ -118,6 +118,9 @@ pub struct WalWriter {
     entry_count: usize,
     bytes_written: u64,
     error_handler: Option<Arc<WalErrorHandler>>,
+    /// `(offset, entry_count)` the file still has to be cut back to: the rollback of a failed
+    /// append failed as well, so bytes of an unacknowledged frame may follow the last good one.
+    pending_rollback: Option<(u64, usize)>,
 }
 
 impl WalWriter {
@@ -157,6 +160,7 @@ impl WalWriter {
             entry_count: 0,
             bytes_written: 4, // Magic header
             error_handler,
+            pending_rollback: None,
         })
     }
 
@@ -169,9 +173,10 @@ impl WalWriter {
                 let handler = Arc::clone(error_handler);
                 // Clone entry to avoid borrowing issues
                 let entry_clone = entry.clone();
-                let stable_offset = self.bytes_written;
-                let stable_entry_count = self.entry_count;
                 handler.write_with_retry(|| {
+                    self.finish_pending_rollback()?;
+                    let stable_offset = self.bytes_written;
+                    let stable_entry_count = self.entry_count;
                     self.append_internal_with_rollback(
                         &entry_clone,
                         stable_offset,
@@ -202,13 +207,17 @@ impl WalWriter {
             Ok(()) => Ok(()),
             Err(write_err) => {
                 let write_err_msg = write_err.to_string();
-                self.rollback_to_stable_state(stable_offset, stable_entry_count)
-                    .with_context(|| {
+                if let Err(rollback_err) =
+                    self.rollback_to_stable_state(stable_offset, stable_entry_count)
+                {
+                    self.pending_rollback = Some((stable_offset, stable_entry_count));
+                    return Err(rollback_err).with_context(|| {
                         format!(
                             "WAL write failed ({}); rollback to offset {} failed",
                             write_err_msg, stable_offset
                         )
-                    })?;
+                    });
+                }
                 Err(write_err)
             }
         }
@@ -251,6 +260,17 @@ impl WalWriter {
         self.file
             .sync_data()
             .context("Failed to fsync WAL after rollback truncate")?;
+        Ok(())
+    }
+
+    /// Finish a rollback that failed earlier. Nothing may be appended behind stray bytes: the
+    /// reader counts them as a corrupted frame and strict recovery then refuses the segment.
+    fn finish_pending_rollback(&mut self) -> Result<()> {
+        if let Some((offset, entry_count)) = self.pending_rollback {
+            self.rollback_to_stable_state(offset, entry_count)
+                .context("WAL still holds bytes of an earlier failed append")?;
+            self.pending_rollback = None;
+        }
         Ok(())
     }
 
@@ -299,9 +319,10 @@ impl WalWriter {
             Some(error_handler) => {
                 let handler = Arc::clone(error_handler);
                 let entries_clone = entries.to_vec();
-                let stable_offset = self.bytes_written;
-                let stable_entry_count = self.entry_count;
                 handler.write_with_retry(|| {
+                    self.finish_pending_rollback()?;
+                    let stable_offset = self.bytes_written;
+                    let stable_entry_count = self.entry_count;
                     self.append_batch_internal_with_rollback(
                         &entries_clone,
                         stable_offset,
@@ -323,13 +344,17 @@ impl WalWriter {
             Ok(()) => Ok(()),
             Err(write_err) => {
                 let write_err_msg = write_err.to_string();
-                self.rollback_to_stable_state(stable_offset, stable_entry_count)
-                    .with_context(|| {
+                if let Err(rollback_err) =
+                    self.rollback_to_stable_state(stable_offset, stable_entry_count)
+                {
+                    self.pending_rollback = Some((stable_offset, stable_entry_count));
+                    return Err(rollback_err).with_context(|| {
                         format!(
                             "WAL batch write failed ({}); rollback to offset {} failed",
                             write_err_msg, stable_offset
                         )
-                    })?;
+                    });
+                }
                 Err(write_err)
             }
         }
